@@ -286,7 +286,7 @@ theorem unwrap_adjacent_jump (fl : K → K) (hf : IsFloor fl) (md step : K) (hs 
     simpa [unwrap] using this
 
 /-- the floor the driver uses (`Rat.floor`) is a floor function, so 7a–7d apply to it. -/
-theorem ratFloor_isFloor : IsFloor (fun r : Rat => ((Rat.floor r : Int) : Rat)) := by
+theorem ratFloor_isFloor : IsFloor R.fl := by
   intro x
   refine ⟨⟨_, rfl⟩, Rat.floor_le x, ?_⟩
   have := Rat.lt_floor_add_one x
@@ -295,6 +295,46 @@ theorem ratFloor_isFloor : IsFloor (fun r : Rat => ((Rat.floor r : Int) : Rat)) 
 
 end unwrap
 
+/-! ### the terms the driver runs
+
+`ALV.C20.R.*` are the `Rat` instances of the models and specs, elaborated in the Mathlib-free
+model/spec files (core instances) and executed by `alvdrv`.  The theorems above apply to exactly
+these terms. -/
+section rat
+
+theorem rat_maverage (size : Nat) (hs : 0 < size) (zero : Rat) (xs : List Rat) :
+    R.maverageDeque size zero xs = R.mavgSpec size zero xs ∧
+    R.maverageRecursive size zero xs = R.mavgSpec size zero xs ∧
+    R.maverageFir size zero xs = R.mavgSpec size zero xs ∧
+    R.mavgClosed size zero xs = R.mavgSpec size zero xs :=
+  ⟨maverage_deque_eq_spec size hs zero xs, maverage_recursive_eq_spec size hs zero xs,
+   maverage_fir_eq_spec size hs zero xs, mavgClosed_eq_mavgSpec size zero xs⟩
+
+theorem rat_accumulate (xs : List Rat) :
+    R.accumulateFunc xs = R.accSpec xs ∧ R.accumulateIt xs = R.accSpec xs ∧
+    R.accumulateZ 0 xs = R.accSpec xs :=
+  ⟨accumulate_func_eq_spec xs, accumulate_it_eq_spec xs, accumulate_z_eq_spec xs⟩
+
+theorem rat_amdf (lag size : Nat) (hs : 0 < size) (zero : Rat) (xs : List Rat) :
+    R.amdf lag size zero xs = R.amdfSpec lag size zero xs :=
+  amdf_eq_spec lag size hs zero xs
+
+theorem rat_clip (low high : Option Rat) (xs : List Rat) :
+    R.clip low high xs = R.clipSpec low high xs :=
+  clip_eq_spec low high xs
+
+theorem rat_zcross (h fs : Rat) (h0 : 0 ≤ h) (xs : List Rat) :
+    R.zcross h fs xs = R.zcrossSpec h fs xs :=
+  zcross_eq_spec h fs h0 xs
+
+theorem rat_unwrap (md step : Rat) (hs : 0 < step) (xs : List Rat) :
+    R.unwrap md step xs = R.unwrapSpec md step xs ∧
+    AdjAll (fun y0 y1 => |y1 - y0| ≤ max md (step / 2)) (R.unwrap md step xs) :=
+  ⟨unwrap_eq_spec R.fl ratFloor_isFloor md step hs xs,
+   unwrap_adjacent_jump R.fl ratFloor_isFloor md step hs xs⟩
+
+end rat
+
 /-! ### non-vacuity -/
 example : (0 < 4) ∧ maverageDeque 2 (0 : Rat) [1, 3, 5] = [1/2, 2, 4] := by decide +kernel
 example : amdf 2 2 (0 : Rat) [1, 3, -2, 5] = [1/2, 2, 3, 5/2] := by decide +kernel
@@ -302,7 +342,7 @@ example : clip (some (0 : Int)) (some 2) [-1, 1, 3] = .ok [0, 1, 2] := by decide
 example : ∃ e, clip (some (2 : Int)) (some 0) [1] = .error e := ⟨_, rfl⟩
 example : (0 : Rat) ≤ 1 ∧ zcross (1 : Rat) 0 [1/2, 2, -1/2, -3, 5] = [0, 0, 0, 1, 1] := by decide +kernel
 example : (0 : Rat) < 2 ∧
-    unwrap (fun r : Rat => ((Rat.floor r : Int) : Rat)) 1 2 [1, 3/2, -2, 5/4, 7] = [1, 3/2, 2, 5/4, 1] := by
+    R.unwrap 1 2 [1, 3/2, -2, 5/4, 7] = [1, 3/2, 2, 5/4, 1] := by
   decide +kernel
 example : AdjAll (fun a b : Rat => ¬ |b - a| > 1) [0, 1, 1/2] := by
   simp only [AdjAll]; norm_num
